@@ -2,8 +2,21 @@
 
 from typing import Any, Dict, List, NamedTuple, Optional, Tuple
 import hashlib
+import numpy
 import data_algebra.data_model
 import data_algebra.db_model
+
+
+def _category_cell_types(col) -> List[str]:
+    """
+    The types of a categorical column's cells, without walking the cells: the types of its categories (sorted, the
+    order of the categories is not part of the table) and a hash of which cell holds a category of which type.
+    """
+    type_names = [type(v).__name__ for v in col.cat.categories] + ["missing"]  # code -1: the last entry
+    names = sorted(set(type_names))
+    ids = numpy.asarray([names.index(t) for t in type_names], dtype="int64")
+    cell_ids = ids[col.cat.codes.to_numpy()]
+    return names + [hashlib.sha256(cell_ids.tobytes()).hexdigest()]
 
 
 def hash_data_frame(d) -> str:
@@ -27,12 +40,11 @@ def hash_data_frame(d) -> str:
     cell_types = [
         [type(v).__name__ for v in d.iloc[:, j]]
         if str(d.iloc[:, j].dtype) == "object"
-        else [type(v).__name__ for v in d.iloc[:, j].cat.categories]
-        + [hashlib.sha256(d.iloc[:, j].cat.codes.to_numpy().tobytes()).hexdigest()]
+        else _category_cell_types(d.iloc[:, j])
         for j in range(d.shape[1])
         if str(d.iloc[:, j].dtype) in ("object", "category")
     ]  # by position: a query result may repeat a column name; a categorical column says "category" whatever it holds
-    # (its cells are its categories: their types are looked at, and which cell holds which category, not every cell)
+    # (its cells are its categories: their types are looked at, and which cell holds a category of which type, not every cell)
     type_str = hashlib.sha256(str((col_types, cell_types)).encode("utf-8")).hexdigest()
     return f"{d.shape}_{list(d.columns)}_{hash_str}_{type_str}"
 
